@@ -13,9 +13,9 @@ _SYMS = {}
 
 def symbols(e):
     """frozenset of names of the uninterpreted constants / functions in e"""
-    k = e.get_id()
+    k = id(e)
     hit = _SYMS.get(k)
-    if hit is not None and hit[1].eq(e):
+    if hit is not None and hit[1] is e:
         return hit[0]
     out = set()
     seen = set()
@@ -36,7 +36,7 @@ def symbols(e):
             for c in x.children():
                 stack.append(c)
     fs = frozenset(out)
-    _SYMS[k] = (fs, e)      # keep e alive: ids are recycled otherwise
+    _SYMS[k] = (fs, e)      # keep e alive: python ids are recycled otherwise
     return fs
 
 
